@@ -100,13 +100,18 @@ func writeOnceCapture(f *ssa.Function, i int) bool {
 }
 
 // helperRoles finds the query (string) and mask (int) inputs of the JSON helper.
-func helperRoles(f *ssa.Function) (q, mask helperRole) {
+func helperRoles(f *ssa.Function, pcall *ssa.Call) (q, mask helperRole) {
 	q, mask = helperRole{f, -1, -1}, helperRole{f, -1, -1}
+	// the query input is what reaches the scanner entry's first argument (a name, or a value of an enumeration)
+	var qArg ssa.Value
+	if pcall != nil && len(pcall.Call.Args) > 0 {
+		qArg = pcall.Call.Args[0]
+	}
 	for i, p := range f.Params {
-		if b, ok := p.Type().Underlying().(*types.Basic); ok && b.Kind() == types.Int {
+		if b, ok := p.Type().Underlying().(*types.Basic); ok && b.Kind() == types.Int && qArg != ssa.Value(p) {
 			mask.param = i
 		}
-		if core.IsString(p.Type()) {
+		if core.IsString(p.Type()) || (qArg != nil && qArg == ssa.Value(p)) {
 			q.param = i
 		}
 	}
@@ -192,6 +197,29 @@ func dependsOn(v ssa.Value, call *ssa.Call, idx int) bool {
 		return false
 	}
 	return rec(v)
+}
+
+// queryKeyOf: the table key a folded query argument stands for: the name itself,
+// or "#n" for the n-th value of an enumeration.
+func queryKeyOf(v interface{}) (string, bool) {
+	switch x := v.(type) {
+	case string:
+		return x, true
+	case int64:
+		return fmt.Sprintf("#%d", x), true
+	}
+	return "", false
+}
+
+func constValue(k constant.Value) interface{} {
+	switch k.Kind() {
+	case constant.String:
+		return constant.StringVal(k)
+	case constant.Int:
+		i, _ := constant.Int64Val(k)
+		return i
+	}
+	return nil
 }
 
 func isExtract(v ssa.Value) bool {
@@ -407,7 +435,7 @@ var ruleTokenGate = &core.Rule{ID: "R09.4", Min: 5,
 		disp := tabulateDispatch(c, m, m.guardFn)
 		s.Check(disp['['].token == tArr && disp['{'].token == tObj, "token codes of '[' and '{'", c.Pos(m.guardFn.Pos()), fmt.Sprintf("'['->%d '{'->%d", tArr, tObj), fmt.Sprintf("the scanner records token %d for '[' and %d for '{' (expected %d, %d)", disp['['].token, disp['{'].token, tArr, tObj))
 		// mask and query inputs of the helper (parameters, or variables captured from its constructor)
-		qR, maskR := helperRoles(f)
+		qR, maskR := helperRoles(f, pcall)
 		if !qR.valid() {
 			core.Bail("JSON helper has no query input")
 		}
@@ -500,7 +528,7 @@ var ruleTokenGate = &core.Rule{ID: "R09.4", Min: 5,
 				continue
 			}
 			mask, okm := mv.(int64)
-			q, okq := qv.(string)
+			q, okq := queryKeyOf(qv)
 			if !okm0 || !okq0 || !okm || !okq || !fwd1 || !fwd2 {
 				s.Bad(key, c.Pos(pos), "mask / query are not constants or (header, limit) are not forwarded unchanged")
 				continue
@@ -1032,11 +1060,22 @@ func jsonQueries(c *core.Ctx) map[string][]jsonQuery {
 				if !ok {
 					continue
 				}
-				mt, ok := p.TypesInfo.TypeOf(cl).Underlying().(*types.Map)
-				if !ok || !core.IsString(mt.Key()) {
+				// a map from the query name, or an array / slice literal indexed by the values of an enumeration
+				var elemT types.Type
+				switch tt := p.TypesInfo.TypeOf(cl).Underlying().(type) {
+				case *types.Map:
+					if b, isB := tt.Key().Underlying().(*types.Basic); !isB || b.Info()&(types.IsString|types.IsInteger) == 0 {
+						continue
+					}
+					elemT = tt.Elem()
+				case *types.Array:
+					elemT = tt.Elem()
+				case *types.Slice:
+					elemT = tt.Elem()
+				default:
 					continue
 				}
-				sl, ok := mt.Elem().Underlying().(*types.Slice)
+				sl, ok := elemT.Underlying().(*types.Slice)
 				if !ok {
 					continue
 				}
@@ -1044,13 +1083,29 @@ func jsonQueries(c *core.Ctx) map[string][]jsonQuery {
 					continue
 				}
 				found = true
+				next := int64(0)
 				for _, el := range cl.Elts {
-					kv := el.(*ast.KeyValueExpr)
-					kval := p.TypesInfo.Types[kv.Key].Value
-					if kval == nil {
-						core.Bail("query table key is not a constant")
+					kv, isKV := el.(*ast.KeyValueExpr)
+					var kval constant.Value
+					val := el
+					if isKV {
+						kval = p.TypesInfo.Types[kv.Key].Value
+						val = kv.Value
+						if kval == nil {
+							core.Bail("query table key is not a constant")
+						}
+						if kval.Kind() == constant.Int {
+							next, _ = constant.Int64Val(kval)
+						}
+					} else {
+						kval = constant.MakeInt64(next)
 					}
-					out[constant.StringVal(kval)] = parseQueryList(c, p, kv.Value)
+					next++
+					k, okK := queryKeyOf(constValue(kval))
+					if !okK {
+						core.Bail("query table key is neither a string nor an integer constant")
+					}
+					out[k] = parseQueryList(c, p, val)
 				}
 			}
 			return true
@@ -1248,16 +1303,16 @@ var ruleQueryTables = &core.Rule{ID: "R10.2", Min: 3,
 	Doc: "the constant query tables equal the specification: GeoJSON = path [type] with the nine RFC 7946 type names (quoted); HAR = [log, version|creator|entries] without values; glTF = [asset, version] with \"1.0\" / \"2.0\"; each sub-type detector uses the query that belongs to its node",
 	Run: func(c *core.Ctx, s *core.Sink) {
 		qs := jsonQueries(c)
-		f, _ := jsonHelperFn(c)
+		f, pcall := jsonHelperFn(c)
 		tm := tree.Get(c)
-		qR, _ := helperRoles(f)
+		qR, _ := helperRoles(f, pcall)
 		queryOf := func(mime, ext string) (string, *tree.Node) {
 			for _, n := range tm.Find(mime) {
 				if n.Ext != ext || n.DetFn == nil || !qR.valid() {
 					continue
 				}
 				if v, _, _, ok := qR.constOf(n); ok {
-					if q, isS := v.(string); isS {
+					if q, isS := queryKeyOf(v); isS {
 						return q, n
 					}
 				}
